@@ -346,6 +346,46 @@ def _last_modified(tok_i):
     return True
 
 
+import gzip as _gzip
+_GZ_OK = _gzip.compress(b'<?xml version="1.0"?><urlset><url><loc>http://example.com/a</loc></url></urlset>')
+_SITEMAPS = [b'', b'User-agent: *\nSitemap: http://example.com/s.xml\nSitemap: http://[\n', _GZ_OK, _GZ_OK[:20], _GZ_OK[:12] + b'\xff' * 30 + _GZ_OK[12:],
+             b'\x1f\x8b', b'\x1f\x8bhello world this is not gzip', _GZ_OK + b'trailing garbage', b'<?xml version="1.0"?><urlset><url><loc>\xff\xfe</loc>',
+             b'\x1f\x8b\x08\x00' + b'\x00' * 20, _gzip.compress(b'Sitemap: http://example.com/t.xml\n'), b'\x00' * 50, b'Sitemap:\nSitemap: \x00\nsitemap: ?']
+
+
+class _StubParserError(Exception):
+    pass
+
+
+class _StubHTMLParser:
+    """The HTML/XML back end cannot run here; the part under test is everything before it is called (gzip sniffing, robots.txt lines)."""
+    parser_error = _StubParserError
+
+    def parse(self, file, encoding=None):
+        file.read()
+        return iter(())
+
+
+def _sitemap_documents(doc_i, url_i):
+    from wpull.scraper.sitemap import SitemapScraper
+    from wpull.protocol.http.request import Request as HReq, Response as HResp
+    from wpull.body import Body
+    clear_url_memo()
+    doc = pick(_SITEMAPS, doc_i)
+    url = pick(['http://example.com/robots.txt', 'http://example.com/sitemap.xml.gz', 'http://example.com/sitemap_index.xml'], url_i)
+    with nosym():
+        req = HReq(url)
+        resp = HResp(200, 'OK')
+        resp.request = req
+        resp.body = Body(io.BytesIO())
+        resp.body.write(doc)
+        resp.body.seek(0)
+        scraper = SitemapScraper(_StubHTMLParser())
+        result = scraper.scrape(req, resp)
+    hit('scraped' if result is not None else 'unsupported')
+    return True
+
+
 def _file_continue(status_i, ftp, restart_ok):
     """--continue: a partial local file exists, the request asks for the rest; the server answers with something else than the
     requested remainder (200 instead of 206, 416 for a complete file, an error page; FTP: REST refused)."""
@@ -489,6 +529,12 @@ HARNESSES = [
       doc='--retr-symlinks=off: every pair from 12 symlink entries of a listing (duplicate names, names with / or .., absolute, empty, '
           'no target, NUL) over a model of os.symlink: the processor returns normally and every link created lies directly in the '
           'directory of the listing'),
+    H('sitemap_documents', '_sitemap_documents', 'doc_i: int, url_i: int', pre=['0 <= doc_i < %d and 0 <= url_i <= 2' % len(_SITEMAPS)],
+      timeout={'quick': 120, 'thorough': 300}, samples=[(2, 1), (1, 0), (6, 1)], need=['scraped'],
+      funcs=['wpull/scraper/sitemap.py:SitemapScraper.scrape', 'wpull/document/sitemap.py:SitemapReader.iter_links', 'wpull/document/sitemap.py:SitemapReader.is_file'],
+      doc='13 robots.txt / sitemap bodies (gzip magic followed by junk, truncated or corrupted gzip, trailing garbage, NULs, broken '
+          'Sitemap: lines) through SitemapScraper.scrape with a stub XML back end: the gzip sniffing and robots.txt paths return links '
+          'or give up quietly, nothing is raised'),
     H('file_continue', '_file_continue', 'status_i: int, ftp: bool, restart_ok: bool', pre=['0 <= status_i <= 6'],
       timeout={'quick': 120, 'thorough': 300}, samples=[(0, False, True), (1, False, True), (0, True, False)], need=['refused', 'continued'],
       funcs=['wpull/writer.py:BaseFileWriterSession.process_response', 'wpull/writer.py:BaseFileWriterSession._process_file_continue_response'],
